@@ -653,7 +653,9 @@ def judge(run, spec, info):
                 't=%s); extra %r missing %r' % (rep, first[-8:], expected[-8:], info['t_fail'], extra[:5], missing[:5]))
     if code_none:
         want_last = _grid_last(spec)
-        if not first or first[-1] != want_last:
+        # with 'ALL' every solved step is a row: steps solved after the last hydraulic-grid point (an event, the start
+        # of a pattern period) are legitimate rows too, so only 'not before the last grid point' is demanded there
+        if not first or (first[-1] != want_last if rep != 'ALL' else first[-1] < want_last):
             return ('complete_run/last_row', 'error_code None, duration %s, report %s, hyd %s: last index %r, expected %s'
                     % (o['duration'], rep, o['hyd'], first[-1:] or None, want_last))
     info['index'] = first
